@@ -164,10 +164,14 @@ SaneBoard(pos) ==
   /\ ~InCheck(pos.board, Other(pos.stm))
 EpWrongSide(chars) == LET fc == FieldClasses(chars) IN Len(fc) >= 4 /\ fc[4] = "G"
 Described(chars) == LET p == Parse(chars) IN IF EpWrongSide(chars) THEN [p EXCEPT !.ep = 8] ELSE p
+\* A castling field made of castling letters only, but with a letter repeated or in an unusual order ("KK", "QK"): it
+\* may be refused; if it is imported, the rights are the letters it names - a repeated letter names nothing new (Parse
+\* takes the set of letters), so "KK" imported as "Q" or "-" is an altered right.
+CastLettersOnly(chars) == LET f == Split(chars, " ")[3] IN \A i \in 1..Len(f) : f[i] \in CastLetters
 ImportJudged(chars) ==
   LET fc == FieldClasses(chars) IN
   /\ Len(fc) >= 4
-  /\ \A i \in 1..Len(fc) : fc[i] = "A" \/ (i = 4 /\ fc[i] = "G")
+  /\ \A i \in 1..Len(fc) : fc[i] = "A" \/ (i = 4 /\ fc[i] = "G") \/ (i = 3 /\ fc[i] = "G" /\ CastLettersOnly(chars))
   /\ SaneBoard(Described(chars))
 
 \* the engine-convention reading of a position: ep kept only when capturable
